@@ -327,3 +327,101 @@ def twod_programs(tier, rng):
         P += [shared_args(600), shared_lets(900), shared_record(500), shared_nested(60, 8),
               shared_args(rng.randint(120, 400)), shared_lets(rng.randint(150, 600))]
     return P
+
+
+# ---- entry functions WITH parameters ------------------------------------------------------------
+# PUSH_PARAM pushes the parameters of the entry function chosen by nev_prepare (on the command
+# line: the words after the file name).  Programs here are 5-tuples: the fifth element is
+# {"entry": name, "args": [words]}.
+
+PARAM_TYPES = ("int", "float", "string")
+
+
+def _param_value(t, i):
+    return {"int": str(3 * i + 1), "float": "%d.5" % (i + 1), "string": "w%d" % i}[t]
+
+
+def entry_params(types, extra_depth=0, entry="main"):
+    """entry function with len(types) parameters; extra_depth > 0 adds a recursion below it"""
+    k = len(types)
+    params = ", ".join("p%d : %s" % (i, t) for i, t in enumerate(types))
+    ints = [("p%d" % i) for i, t in enumerate(types) if t == "int"]
+    flts = [("p%d" % i) for i, t in enumerate(types) if t == "float"]
+    strs = [("p%d" % i) for i, t in enumerate(types) if t == "string"]
+    body = []
+    if strs:
+        body.append("    prints(%s + \"\\n\");" % " + ".join(strs))
+    if flts:
+        body.append("    printf(%s);" % " + ".join(flts))
+    isum = " + ".join(ints) if ints else "0"
+    if extra_depth:
+        body.append("    print(f(%d) + %s);" % (extra_depth, isum))
+    else:
+        body.append("    print(%s);" % isum)
+    res = "%s + %d" % (ints[0], k) if ints else str(k)
+    src = ""
+    if extra_depth:
+        src += "func f(n : int) -> int { n == 0 ? 0 : 1 + f(n - 1) }\n"
+    src += "func %s(%s) -> int\n{\n%s\n    %s\n}\n" % (entry, params, "\n".join(body), res)
+    if entry != "main":
+        src += "func main() -> int { 0 }\n"
+    sig = "".join(t[0] for t in types) or "none"
+    pid = "entry_%s_%d_%s%s" % (entry, k, sig[:12], "_d%d" % extra_depth if extra_depth else "")
+    return (pid, src, None, ["entry-params", "k=%d" % k],
+            {"entry": entry, "args": [_param_value(t, i) for i, t in enumerate(types)]})
+
+
+def entry_argv(n):
+    return ("entry_argv_%d" % n,
+            "func main(args[D] : string) -> int\n{\n    print(D);\n    prints(args[D - 1] + \"\\n\");\n    D\n}\n",
+            None, ["entry-params", "argv"], {"entry": "main", "args": ["a%d" % i for i in range(n)]})
+
+
+def entry_programs(tier, rng):
+    thorough = tier != "quick"
+    P = [entry_params(["int"] * k) for k in range(0, 11)]
+    P += [entry_params(["int", "float", "string", "int"]),
+          entry_params(["string", "string", "float", "float", "int", "int", "string", "int"]),
+          entry_params(["float"] * 5),
+          entry_params(["int"] * 6, extra_depth=3),
+          entry_params(["int"] * 1, entry="on_event"),
+          entry_params(["int", "string", "int"], entry="on_event"),
+          entry_params(["int"] * 8, entry="handler"),
+          entry_argv(1), entry_argv(4)]
+    if thorough:
+        P += [entry_params(["int"] * k) for k in (12, 16, 24, 40)]
+        P += [entry_params(["string"] * 9, extra_depth=7), entry_argv(12)]
+    for _ in range(3 if not thorough else 16):
+        k = rng.randint(1, 9 if not thorough else 30)
+        types = [rng.choice(PARAM_TYPES) for _ in range(k)]
+        p = entry_params(types, extra_depth=rng.choice([0, 0, 2, 5]), entry=rng.choice(["main", "main", "start"]))
+        if p[0] not in [q[0] for q in P]:
+            P.append(p)
+    return P
+
+
+# ---- probes for the command-line tool ---------------------------------------------------------------
+# Candidates per role; checks/c14.py measures stack demand and heap need of each through the API and
+# keeps, per role, the first candidate whose measured needs have the relation to the tool's defaults
+# the role asks for.
+
+def cli_candidates(tier, rng):
+    """role -> [program]; roles:
+       stack-near-default   demand in (default_stack*0.6, default_stack]: fits the default, not 3/4 of it
+       stack-over-default   demand above the default stack size
+       heap-light           demand in (default_stack*0.6, default_stack], completes with fewer heap cells than that
+       heap-over-default    needs more heap cells than the default heap size, little stack
+       heap-heavy           needs more heap cells than the default STACK size (and fewer than the default heap), little stack
+       entry-args           entry function with parameters (words after the file name)
+       status               tiny program whose result is the exit status"""
+    d0 = rng.randint(0, 2)
+    return {
+        "stack-near-default": [rec_plain(d) for d in (19 - d0, 17, 16, 15, 14, 20, 21, 13, 12)],
+        "stack-over-default": [rec_plain(d) for d in (27 + d0, 31, 36, 45)],
+        "heap-light": [shared_args(w) for w in (125 + 3 * d0, 118, 110, 135, 100, 145, 90)],
+        "heap-over-default": [heap_list(n) for n in (2400 + 100 * d0, 3000, 4000, 6000, 1800)],
+        "heap-heavy": [heap_list(n) for n in (110 + 10 * d0, 160, 220, 300, 80, 500)],
+        "entry-args": [entry_params(["int", "string", "int", "float", "int"], extra_depth=4 + d0),
+                       entry_params(["int"] * 7)],
+        "status": [("status_%d" % (40 + d0), "func main() -> int { print(%d); %d }\n" % (5 + d0, 40 + d0), None, ["status"])],
+    }
